@@ -5,12 +5,13 @@
 package port
 
 // C05: static port ranges are taken exactly as written in the template: item i of the comma-separated expression is
-// "a" (the single port a) or "a-b" (ports a to b).
+// "a" (the single port a) or "a-b" (ports a to b, a <= b: a reversed range is not a set of ports and is refused - mesos-go
+// treats {b..a} as a subset of anything, so Resources.Satisfy would accept an offer that has none of the ports).
 //@ ghost pure func item(str string, i int) string = strings.trimmed(strings.splitElem(str, ",", i))
 //@ ghost pure func part(it string, k int) string = strings.splitElem(it, "-", k)
 //@ ghost pure func itemOk(it string) bool =
 //@     (strings.splitLen(it, "-") == 1 && strconv.puOk(part(it, 0))) ||
-//@     (strings.splitLen(it, "-") == 2 && strconv.puOk(part(it, 0)) && strconv.puOk(part(it, 1)))
+//@     (strings.splitLen(it, "-") == 2 && strconv.puOk(part(it, 0)) && strconv.puOk(part(it, 1)) && strconv.pu(part(it, 0)) <= strconv.pu(part(it, 1)))
 //@ ghost pure func itemBegin(it string) uint64 = strconv.pu(part(it, 0))
 //@ ghost pure func itemEnd(it string) uint64 = if strings.splitLen(it, "-") == 1 then strconv.pu(part(it, 0)) else strconv.pu(part(it, 1))
 
